@@ -394,6 +394,7 @@ CALLS = [
     "rec(x)", "rec(x, 2)", "rec(x, 2, 3)", "rec(x, k=3)", "rec(x, b=z)", "rec(x, k=2, b=z)", "rec(b=2, a=x)", "rec(x, 2, k=z * 2)", "rec(a=x, b=z + 1, k=-2)",
     "rec(x, 'ab')", 'rec(x, "ab")', "rec(x, 'Ab', k=\"abc\")", "rec(x, True)", "rec(x, False)", "rec(x, None)", "rec(x, k=None)", "rec(x, b=True, k=False)",
     "rec(rec(x, 2), z)", "rec(x, rec(z, 3), k=rec(x))", "np.log(rec(x) + 1)", "rec(np.log(x), np.exp(z))", "rec(x + z * 2, z / x)", "rec((x + z) * 2, k=(z - x) / 2)",
+    "rec(x, 1, True)", "rec(x, 2.0, 2)", "rec(x, 0, k=False)", "rec(x, True, 1)", "rec(x, 1.0, 1, 1, True)", "rec(x, 'a', \"a\")", "rec(rec(x, 1), True)",
     "rec(x, 2, 3, 4, 5)", "rec(x, 0.5, .5)", "rec(-x, +z)", "rec(x, k=z ** 2)", "rec(x, -2)", "rec(x, - 2)", "np.power(x, 2)", "I(np.maximum(x, z) - np.minimum(x, z))",
     "rec(x > 1, z <= 2)", "rec(x == 2.0)", "rec(x != z, x < z)", "rec(x, 'a b')", "rec(x, 'a,b)')", "rec( x ,k = 3 )", "rec(x,k=3)",
 ]
